@@ -386,6 +386,11 @@ func (ms *MessageStreamer) Go(ctx context.Context, conn StreamConnection) error 
 				delayAmount = defaultMinDelay / 2
 			}
 			checkInterval := delayAmount * 9 / 10
+			if checkInterval < time.Millisecond {
+				// a (nearly) zero min backoff would otherwise give NewTicker a
+				// non-positive interval, which panics and takes the process down
+				checkInterval = time.Millisecond
+			}
 			if delayAmount < time.Second {
 				// set a min for this, but _after_ we compute checkInterval
 				delayAmount = time.Second
